@@ -90,6 +90,14 @@ def d_boundary_twin(t):
         a["resseq"], a["icode"], a["resname"] = last_a[2], last_a[3], last_a[4]
 
 
+def d_hetatm_serial(t):
+    """Serials start at 9990, so that residue A3, written as HETATM, carries five-digit serials (record name and serial touch in the PDB line)."""
+    for a in t:
+        a["serial"] += 9989
+        if a["chain"] == "A" and a["resseq"] in (3, 6):
+            a["record"] = "HETATM"
+
+
 def d_hetatm(t):
     for a in t:
         if a["chain"] == "A" and a["resseq"] == 3:
@@ -182,7 +190,7 @@ def deviations():
          d_remove("O3'", 3), d_remove("P", 4), d_remove("N9", 3), d_translate]
     d += [d_op(x) for x in (2.39, 2.395, 2.405, 2.41)]
     d += [d_reverse, d_hydrogens]
-    d += [d_boundary_twin]
+    d += [d_boundary_twin, d_hetatm_serial]
     # coordinates that fill the 8-character PDB fields completely (<= -100.000, >= 1000.000)
     d += [d_shift(-250.0, -250.0, -250.0), d_shift(1500.0, 0.0, -180.0), d_shift(0.0, 2000.0, 0.0)]
     return d
